@@ -45,7 +45,39 @@ func (c *chunkReader) Read(p []byte) (int, error) {
 	return n, nil
 }
 
-var readerModes = []string{"buffer", "onebyte", "half", "data+eof", "random", "chunk1000", "chunk1024", "chunk1025"}
+var readerModes = []string{"buffer", "onebyte", "half", "data+eof", "random", "chunk1000", "chunk1024", "chunk1025", "zero-reads"}
+
+// zeroReader returns (0, nil) before some of its reads: "nothing happened", which io.Reader allows and an io.Pipe
+// produces when its writer makes an empty Write
+type zeroReader struct {
+	b     []byte
+	rnd   *rand.Rand
+	zeros int
+}
+
+func (z *zeroReader) Read(p []byte) (int, error) {
+	if len(p) == 0 {
+		return 0, nil
+	}
+	if z.zeros < 3 && z.rnd.Intn(3) == 0 {
+		z.zeros++
+		return 0, nil
+	}
+	z.zeros = 0
+	if len(z.b) == 0 {
+		return 0, io.EOF
+	}
+	n := 1 + z.rnd.Intn(1500)
+	if n > len(p) {
+		n = len(p)
+	}
+	if n > len(z.b) {
+		n = len(z.b)
+	}
+	copy(p, z.b[:n])
+	z.b = z.b[n:]
+	return n, nil
+}
 
 func reader(mode string, p []byte, rnd *rand.Rand) io.Reader {
 	switch mode {
@@ -65,6 +97,8 @@ func reader(mode string, p []byte, rnd *rand.Rand) io.Reader {
 		return &chunkReader{b: append([]byte(nil), p...), next: func(int) int { return 1024 }}
 	case "chunk1025":
 		return &chunkReader{b: append([]byte(nil), p...), next: func(int) int { return 1025 }}
+	case "zero-reads":
+		return &zeroReader{b: append([]byte(nil), p...), rnd: rnd}
 	}
 	panic(mode)
 }
